@@ -894,7 +894,6 @@ var fallbackRng uint64 = 1
 
 var observeObj, rngObj byte
 
-
 func btoi(b bool) int {
 	if b {
 		return 1
